@@ -299,83 +299,84 @@ func c08Run(c *Ctx) {
 				}
 			}
 			// ---------------- damaged gzip streams
-			zb := gz([]byte(text))
-			stride := 1
-			if (nl > 6 || nl < 0) && !c.Thorough() {
-				stride = 7
-			}
-			for off := 0; off < len(zb); off += stride {
-				caseNo++
-				if !c.Mine(caseNo) {
-					continue
+			for mi, zb := range c08Archives(text) {
+				stride := 1
+				if (nl > 6 || nl < 0) && !c.Thorough() {
+					stride = 7
 				}
-				var variants [][]byte
-				var names []string
-				variants, names = append(variants, zb[:off]), append(names, fmt.Sprintf("cut at byte %d of %d", off, len(zb)))
-				fl := append([]byte(nil), zb...)
-				fl[off] ^= 0xff
-				variants, names = append(variants, fl), append(names, fmt.Sprintf("byte %d XOR 0xff", off))
-				if c.Thorough() || nl == 6 {
-					for bit := 0; bit < 8; bit++ {
-						f2 := append([]byte(nil), zb...)
-						f2[off] ^= 1 << bit
-						variants, names = append(variants, f2), append(names, fmt.Sprintf("byte %d bit %d flipped", off, bit))
-					}
-				}
-				for vi, dmg := range variants {
-					// independent reading of the same damaged bytes
-					var delivered []byte
-					var gzErr error
-					if zr, err := gzip.NewReader(bytes.NewReader(dmg)); err != nil {
-						gzErr = err
-					} else {
-						delivered, gzErr = io.ReadAll(zr)
-					}
-					var out bytes.Buffer
-					err, pv := c08RunStream("gzip", io.NopCloser(bytes.NewReader(dmg)), &out)
-					c.Eval(1)
-					c.Distinct(fmt.Sprintf("gz %d/%v %s", nl, final, names[vi]))
-					desc := fmt.Sprintf("%d-line input as gzip, %s", nl, names[vi])
-					rp := map[string]any{"kind": "gzip-damage", "lines": nl, "final_newline": final, "damage": names[vi]}
-					if pv != nil {
-						c.Outcome("panic")
-						c.Violate("gzip:panic", desc+": panic "+trunc(fmt.Sprint(pv), 100), int64(off), rp, nil)
+				for off := 0; off < len(zb); off += stride {
+					caseNo++
+					if !c.Mine(caseNo) {
 						continue
 					}
-					if gzErr != nil {
-						if err == nil {
-							c.Outcome("gzip-error-swallowed")
-							c.Violate("gzip:success-reported", fmt.Sprintf("%s: an independent gzip reader fails (%v) but the run returns nil", desc, gzErr), int64(off), rp, nil)
+					var variants [][]byte
+					var names []string
+					variants, names = append(variants, zb[:off]), append(names, fmt.Sprintf("cut at byte %d of %d", off, len(zb)))
+					fl := append([]byte(nil), zb...)
+					fl[off] ^= 0xff
+					variants, names = append(variants, fl), append(names, fmt.Sprintf("byte %d XOR 0xff", off))
+					if c.Thorough() || nl == 6 {
+						for bit := 0; bit < 8; bit++ {
+							f2 := append([]byte(nil), zb...)
+							f2[off] ^= 1 << bit
+							variants, names = append(variants, f2), append(names, fmt.Sprintf("byte %d bit %d flipped", off, bit))
+						}
+					}
+					for vi, dmg := range variants {
+						// independent reading of the same damaged bytes
+						var delivered []byte
+						var gzErr error
+						if zr, err := gzip.NewReader(bytes.NewReader(dmg)); err != nil {
+							gzErr = err
 						} else {
-							c.Outcome("gzip-error-reported")
+							delivered, gzErr = io.ReadAll(zr)
 						}
-						// complete lines among the delivered bytes are the most the output may hold
-						// cut stream: the delivered bytes are a prefix of the real text, so the output must be a
-						// whole-line prefix of the fault-free lines; flipped bytes: the decompressor may deliver
-						// garbage before it notices, so "fault-free" is the redaction of what was delivered
-						dl := refLines
-						if vi > 0 {
-							_, dl = c08Reference(string(delivered))
+						var out bytes.Buffer
+						err, pv := c08RunStream("gzip", io.NopCloser(bytes.NewReader(dmg)), &out)
+						c.Eval(1)
+						c.Distinct(fmt.Sprintf("gz %d/%v %d %s", nl, final, mi, names[vi]))
+						desc := fmt.Sprintf("%d-line input as gzip (%s), %s", nl, []string{"one member", "three members"}[mi], names[vi])
+						rp := map[string]any{"kind": "gzip-damage", "lines": nl, "final_newline": final, "damage": names[vi]}
+						if pv != nil {
+							c.Outcome("panic")
+							c.Violate("gzip:panic", desc+": panic "+trunc(fmt.Sprint(pv), 100), int64(off), rp, nil)
+							continue
 						}
-						if m, ok := wholeLinePrefix(out.String(), dl); !ok {
-							c.Outcome("not-a-prefix")
-							if dd := os.Getenv("VERIF_DEBUG_C08"); dd != "" {
-								os.WriteFile(filepath.Join(dd, fmt.Sprintf("dbg_%d_%d_delivered", nl, off)), delivered, 0o644)
-								os.WriteFile(filepath.Join(dd, fmt.Sprintf("dbg_%d_%d_out", nl, off)), out.Bytes(), 0o644)
-								os.WriteFile(filepath.Join(dd, fmt.Sprintf("dbg_%d_%d_ref", nl, off)), []byte(strings.Join(dl, "")), 0o644)
+						if gzErr != nil {
+							if err == nil {
+								c.Outcome("gzip-error-swallowed")
+								c.Violate("gzip:success-reported", fmt.Sprintf("%s: an independent gzip reader fails (%v) but the run returns nil", desc, gzErr), int64(off), rp, nil)
+							} else {
+								c.Outcome("gzip-error-reported")
 							}
-							c.Violate("gzip:not-a-whole-line-prefix", fmt.Sprintf("%s: after %d correct lines the output holds something that is not the redaction of a complete delivered line: %q [delivered %d bytes, %d reference lines, next reference line %q, output %d bytes]", desc, m, trunc(lastLine(out.String()), 200), len(delivered), len(dl), trunc(refAt(dl, m), 200), out.Len()), int64(off), rp, nil)
-						}
-					} else {
-						exp, _ := c08Reference(string(delivered))
-						if err != nil {
-							c.Outcome("valid-stream-rejected")
-							c.Note("a damaged but still valid gzip stream (%s) is rejected by the run: %v (accepted, not a violation)", names[vi], err)
-						} else if out.String() != exp {
-							c.Outcome("valid-stream-wrong-output")
-							c.Violate("gzip:wrong-output", desc+": the stream is still valid for an independent reader but the output differs from the redaction of its content", int64(off), rp, nil)
+							// complete lines among the delivered bytes are the most the output may hold
+							// cut stream: the delivered bytes are a prefix of the real text, so the output must be a
+							// whole-line prefix of the fault-free lines; flipped bytes: the decompressor may deliver
+							// garbage before it notices, so "fault-free" is the redaction of what was delivered
+							dl := refLines
+							if vi > 0 {
+								_, dl = c08Reference(string(delivered))
+							}
+							if m, ok := wholeLinePrefix(out.String(), dl); !ok {
+								c.Outcome("not-a-prefix")
+								if dd := os.Getenv("VERIF_DEBUG_C08"); dd != "" {
+									os.WriteFile(filepath.Join(dd, fmt.Sprintf("dbg_%d_%d_delivered", nl, off)), delivered, 0o644)
+									os.WriteFile(filepath.Join(dd, fmt.Sprintf("dbg_%d_%d_out", nl, off)), out.Bytes(), 0o644)
+									os.WriteFile(filepath.Join(dd, fmt.Sprintf("dbg_%d_%d_ref", nl, off)), []byte(strings.Join(dl, "")), 0o644)
+								}
+								c.Violate("gzip:not-a-whole-line-prefix", fmt.Sprintf("%s: after %d correct lines the output holds something that is not the redaction of a complete delivered line: %q [delivered %d bytes, %d reference lines, next reference line %q, output %d bytes]", desc, m, trunc(lastLine(out.String()), 200), len(delivered), len(dl), trunc(refAt(dl, m), 200), out.Len()), int64(off), rp, nil)
+							}
 						} else {
-							c.Outcome("gzip-still-valid")
+							exp, _ := c08Reference(string(delivered))
+							if err != nil {
+								c.Outcome("valid-stream-rejected")
+								c.Note("a damaged but still valid gzip stream (%s) is rejected by the run: %v (accepted, not a violation)", names[vi], err)
+							} else if out.String() != exp {
+								c.Outcome("valid-stream-wrong-output")
+								c.Violate("gzip:wrong-output", desc+": the stream is still valid for an independent reader but the output differs from the redaction of its content", int64(off), rp, nil)
+							} else {
+								c.Outcome("gzip-still-valid")
+							}
 						}
 					}
 				}
@@ -388,6 +389,17 @@ func c08Run(c *Ctx) {
 		c.Sample(map[string]any{"fault": "gzip stream of the 40-line input cut at byte offset 100", "expected": "error returned; output = whole-line prefix"})
 	}
 	c08CLI(c)
+}
+
+// c08Archives: the text as a one-member archive and as three members (the first ends at a line end, the second inside
+// a line): damage to the header of a LATER member is damage all the same
+func c08Archives(text string) [][]byte {
+	a := strings.Index(text, "\n") + 1
+	b := a + (len(text)-a)/2
+	if a <= 0 || b <= a || b >= len(text) {
+		return [][]byte{gz([]byte(text))}
+	}
+	return [][]byte{gz([]byte(text)), gzBytes([]byte(text[:a]), []byte(text[a:b]), []byte(text[b:]))}
 }
 
 func refAt(ref []string, m int) string {
